@@ -39,7 +39,7 @@ ASSUMPTIONS = [
     'row dicts always name the last column (shape is inferred from keys)',
 ]
 ANCHORS = ['Table._to_sparse', 'coo_arrays_to_sparse', 'list_list_to_sparse', 'nparray_to_sparse', 'list_nparray_to_sparse', 'list_sparse_to_sparse', 'list_dict_to_sparse', 'dict_to_sparse', 'Table.from_adjacency', 'parse_uc', '_from_uc', 'errcheck']
-REQUIRED = ['families', 'forms_compared', 'form_dict_unordered',
+REQUIRED = ['adjacency_ids_starting_with_hash', 'families', 'forms_compared', 'form_dict_unordered',
             'form_triples_with_zeros', 'form_bool', 'form_int',
             'adjacency_cases', 'uc_cases', 'uc_cli_cases',
             'malformed_duplicate_id', 'malformed_id_count',
@@ -306,6 +306,13 @@ def run_adjacency(ctx, r, index):
         o, s, v = recs[0]
         recs.append((o, s, -v))      # cancels
     header = r.random() < .5
+    if r.random() < .2:
+        # observation ids may start with '#': only a first line starting
+        # with '#' is the (optional) header, so a header is written here
+        ren = {o: '#' + o.strip() for o in r.sample(O, r.randint(1, len(O)))}
+        recs = [(ren.get(o, o), s, v) for o, s, v in recs]
+        header = True
+        ctx.count('adjacency_ids_starting_with_hash')
     lines = ['%s\t%s\t%r' % (o, s, float(v)) for o, s, v in recs]
     if header:
         lines = ['#OTU ID\tSampleID\tvalue'] + lines
